@@ -145,7 +145,7 @@ pub open spec fn is_prefix<T>(a: Seq<T>, b: Seq<T>) -> bool { a.len() <= b.len()
         is_prefix(sent_history, history_items@),
 //@@ loop 2 iter=it2
     invariant
-        tool_call_count <= DEFAULT_MAX_TOOL_CALLS,
+        tool_call_count <= DEFAULT_MAX_TOOL_CALLS,          // [loop.tool_calls_bounded]
         is_prefix(sent_history, history_items@),
         it2.snapshot@.remaining() == tool_calls@,
         it2.history@.len() == it2.index@,
